@@ -42,12 +42,12 @@ def sourceHashes : List (String × String) :=
    ("branch", "b7a09978f3df34b2"),
    ("nop", "38a10715a79b43bd"),
    -- frame-slot level (Model/CfgSlots.lean): the slot-choosing switches of cfg.go and the closures
-   ("assignStmt: skip-assign switch", "fbafc2c9d36d5a8e"),
+   ("assignStmt: skip-assign switch", "ba87596cde52c992"),
    ("binaryExpr: findex switch", "48c75e35f0734e48"),
    ("unaryExpr: findex switch", "878ef56087096278"),
    ("isArithmeticAction", "f57163de29913322"),
    ("run.go assign", "bc12620dcf6fb973"),
-   ("run.go _return", "a27f80f01fc3a454"),
+   ("run.go _return", "6895724d699b988d"),
    ("run.go neg", "200badd1f78ebdba"),
    ("run.go bitNot", "dbce9a8788bf2dae"),
    ("op.go add", "fa31f33a3ea5323a"),
@@ -67,6 +67,13 @@ def sourceHashes : List (String × String) :=
 -- Last sync (/repo at fb8122a): dc95f3e gives frames an `epoch` (newFrame inherits it, clone copies it), newCallFrame(interp, anc, n, e) now
 -- builds the frame itself — `anc: anc`, `data: make(…, length)`, run id / done / dead id from the interpreter and the epoch — and getFunc
 -- passes `n.interp, fr, …, fr.getEpoch()`: the call frame's ancestor is still the clone, one frame per call; cancellation is not modelled.
+-- Round-5 sync (/repo at 52cb9ff, 29 commits after fb8122a), changed rows reviewed against `git diff green-r4..HEAD`:
+--   assignStmt: skip-assign switch — 050210f adds `case dest.rval.IsValid():` (destination is a host variable: keep the assign); not in the fragment
+--   run.go _return — 8544122 two-phase store when an operand lives in an EARLIER result slot (`c.findex < i`: never for one result), 0a3a691 a bare
+--     `return` gets a closure of its own (functions of the fragment return a value); the single-operand arms are unchanged
+--   case assignStmt, defineStmt: define allocates a slot — 52cb9ff rejects an untyped nil source; slot allocation unchanged
+--   new tied fact "call copies the results when the callee returns" (1b5ab85, repairs F01): both Lean levels with calls deliver the result at the
+--     return (doReturn / doReturn2), neither assumed that the callee's result slot is the caller's destination cell
 /-- fingerprints of the functions and clauses Model/Closures.lean transcribes -/
 def closureHashes : List (String × String) :=
   [("newFrame", "8d3a53ebf9cf8afa"),
@@ -92,7 +99,7 @@ def closureHashes : List (String × String) :=
    ("case blockStmt: rangeStmt slots", "ec42ad96f33938f7"),
    ("case blockStmt: rangeStmt loop variables", "622ea483f6088b41"),
    ("case blockStmt: forStmt7 loop variable", "bab8f2008eed8949"),
-   ("case assignStmt, defineStmt: define allocates a slot", "d574df950bf3f087"),
+   ("case assignStmt, defineStmt: define allocates a slot", "bc9549f6d7842924"),
    ("isLoopVarCopy", "a90f7911dc6ac156")]
 /-- the choices of the source Model/Closures.lean is parametrised by (`Mech`) -/
 def mechFacts : List (String × String) :=
@@ -101,6 +108,7 @@ def mechFacts : List (String × String) :=
    ("loopVarFor allocates a fresh value", "true"),
    ("loopVarKey allocates a fresh value", "true"),
    ("rangeInt keeps the value object of the bound", "false"),
+   ("call copies the results when the callee returns", "true"),
    ("a define of the loop variable's name in the loop body is a nop", "false"),
    ("identExpr takes level and index from scope.lookup", "true"),
    ("loopVarForEnd copies back", "true")]
